@@ -96,6 +96,49 @@ def walk(obj, path='', seen_modules=None):
             yield from walk(m, f'{path}.{name}')
 
 
+def walk_other(obj, path=''):
+    """(path, value) for every field that is neither a tensor nor a module nor a nested container: plain python objects such as
+    encoding limits, lists, dicts, strings"""
+    from mrpro.data.MoveDataMixin import MoveDataMixin
+
+    if isinstance(obj, MoveDataMixin):
+        for name, data in obj._items():
+            if isinstance(data, MoveDataMixin):
+                yield from walk_other(data, f'{path}.{name}')
+            elif not isinstance(data, (torch.Tensor, torch.nn.Module)):
+                yield f'{path}.{name}', data
+
+
+def scramble(o, depth=0):
+    """modify a python object in place as deeply as possible (what a user does to a copy); returns how many places were modified"""
+    n = 0
+    if depth > 4:
+        return 0
+    if isinstance(o, list):
+        for e in o:
+            n += scramble(e, depth + 1)
+        o.append('edited-in-the-copy')
+        return n + 1
+    if isinstance(o, dict):
+        for e in o.values():
+            n += scramble(e, depth + 1)
+        o['edited-in-the-copy'] = 1
+        return n + 1
+    if hasattr(o, '__dict__') and not isinstance(o, (type, torch.Tensor, torch.nn.Module)):
+        for k, v_ in list(vars(o).items()):
+            if isinstance(v_, bool) or v_ is None or isinstance(v_, str):
+                continue
+            if isinstance(v_, (int, float)):
+                try:
+                    setattr(o, k, v_ + 12345)
+                    n += 1
+                except Exception:  # noqa: BLE001  (frozen objects cannot be edited - nothing to protect)
+                    pass
+            else:
+                n += scramble(v_, depth + 1)
+    return n
+
+
 def set_path(obj, path, value):
     parts = path.strip('.').split('.')
     for p in parts[:-1]:
@@ -230,6 +273,17 @@ def run(case, drv) -> Outcome:
             viol = viol or v('values', f'{p}: values changed beyond the requested precision')
         if copy and t.numel() and t.untyped_storage().data_ptr() in src_ptrs:
             viol = viol or v('shares-memory', f'{p}: shares memory with the source although a copy was requested')
+    # plain python fields (encoding limits, misc dicts, lists): editing them in a copy must not reach the source
+    if copy and viol is None:
+        before_other = [(p_, repr(val)) for p_, val in walk_other(src)]
+        edited = 0
+        for p_, val in walk_other(new):
+            st_e, n_e = call(lambda val=val: scramble(val))
+            edited += n_e if st_e == 'ok' else 0
+        after_other = [(p_, repr(val)) for p_, val in walk_other(src)]
+        if edited and before_other != after_other:
+            changed = [a[0] for a, b in zip(before_other, after_other) if a != b]
+            viol = v('shares-python-field', f'editing the plain python fields of the copy changed the source fields {changed[:4]}')
     # source unchanged
     for (p, t), s in zip(walk(src), snap, strict=True):
         _, _, d0, val0, ver0, ptr0 = s
